@@ -185,6 +185,27 @@ Fixpoint creations (tr : list cev) : list (nat * nat) :=
   end.
 
 Definition created_revs (tr : list cev) : list nat := map snd (creations tr).
+
+(* a delete that removed the revision *)
+Definition deleted_rev (c : cev) : option nat :=
+  match ce_eff c as e return resp e -> option nat with
+  | SDelete v => fun r => match r with SOk => Some v | _ => None end
+  | _ => fun _ => None
+  end (ce_resp c).
+
+(* (thread, revision) of the creates that are still LIVE: a successful delete of the revision
+   retires its creation *)
+Definition live_step (acc : list (nat * nat)) (c : cev) : list (nat * nat) :=
+  let acc1 := match deleted_rev c with
+              | Some v => filter (fun tv => negb (Nat.eqb (snd tv) v)) acc
+              | None => acc
+              end in
+  match created_rev c with
+  | Some v => (acc1 ++ [(ce_tid c, v)])%list
+  | None => acc1
+  end.
+
+Definition live_creations (tr : list cev) : list (nat * nat) := fold_left live_step tr [].
 Definition creators_of (v : nat) (tr : list cev) : list nat :=
   map fst (filter (fun tv => Nat.eqb (snd tv) v) (creations tr)).
 
